@@ -61,3 +61,17 @@ package evm
 //@   flag pure=Wrapf,NewInfiniteGasMeter,GetMsgs
 //@   flag havoc=ResetTransientGasUsed
 //@   before[C19.esc.reset] #next requires defined(res_ResetTransientGasUsed_0)
+
+// C19 (a transaction whose messages together want more gas than the block allows is rejected; the gas meter of a
+// transaction is the sum of its messages' limits): every message ADDS its gas limit (or the check-tx cap) to the total.
+//@ func (EthGasConsumeDecorator).AnteHandle#next
+//@   flag assumed
+//@   modifies state(ctx), trace
+//@ func (EthGasConsumeDecorator).AnteHandle
+//@   flag noframe
+//@   flag pure=BlockGasLimit,BlockHeight,ChainID,EthereumConfig,EventManager,GetBaseFee,GetChainConfig,GetEvmDenom,GetFrom,GetGas,GetMsgs,GetParams,GetTxPriority,HexToAddress,IsCheckTx,IsHomestead,IsIstanbul,IsReCheckTx,NewAttribute,NewEvent,NewInfiniteGasMeterWithLimit,NewInt,String,UnpackTxData,VerifyFee,Wrap,Wrapf
+//@   flag havoc=ClaimStakingRewardsIfNecessary,DeductTxCostsFromUserBalance,EmitEvents
+//@ loop #1
+//@   invariant true
+//@   step[C19.egc.sum] gasWanted == wrapu(prev_gasWanted + res_GetGas_0, 18446744073709551616) ||
+//@        gasWanted == wrapu(prev_gasWanted + egcd.maxGasWanted, 18446744073709551616)
